@@ -1064,10 +1064,13 @@ func SearchStreams(ctx context.Context, indexes []*Reader, limitIDs *bitmask.Lon
 		sorter := sortingLess
 		resultLimit := limit + skip
 		limitIDs := limitIDs
+		groupingData := groupingData
 		if subQuery != "" {
 			sorter = nil
 			resultLimit = 0
 			limitIDs = nil
+			// only the results of the main query are grouped
+			groupingData = nil
 		}
 
 		for idxIdx := len(indexes) - 1; idxIdx >= 0; idxIdx-- {
